@@ -49,6 +49,7 @@ DESIGN_REF = "DESIGN.md 4/C08"
 READY = True
 
 TOL_ID = 1e-11
+EXCLUDE_DIM_CLUSTERS = True  # finding C08-d (raises): set to False once it is fixed, batches then keep every query point
 MASS = MatrixType.mass
 
 
@@ -542,7 +543,8 @@ def check_point_location(case, rec):
         return fscale if closed_form else iter_scale
 
     def name_of(mt):
-        return "value" if closed_form else "value_iterative"
+        # separate names so that the honest-error record of the affine classes is not polluted by finding C08-g
+        return "value" if closed_form else "value_general" if mt["geometry"] == "general" else "value_iterative"
 
     # singly
     single = np.zeros((len(pts), 2))
@@ -567,7 +569,7 @@ def check_point_location(case, rec):
 
     # as a batch
     keep = list(range(len(pts)))
-    if not case.get("allow_cluster"):
+    if EXCLUDE_DIM_CLUSTERS and not case.get("allow_cluster"):
         keep, dropped = _drop_clusters(mesh, pts, keep, dim)
         if dropped:
             rec.label("excluded:batch_with_dim_points_in_one_element")
@@ -634,7 +636,7 @@ def check_projector(case, rec):
     sig = dict(old=str(g.elemType), new=case["new"]["elemType"], dim=dim)
     rec.label("proj:" + types)
     # finding C08-d: exactly dim new nodes in one old element make the inverse map raise
-    cand = g._Get_nearby_elements(Xn)
+    cand = g._Get_nearby_elements(Xn) if EXCLUDE_DIM_CLUSTERS else []
     if any(np.asarray(g.Get_pointsInElem(Xn, int(e))).size == dim for e in cand):
         rec.label("excluded:projector_with_dim_nodes_in_one_element")
         return
@@ -665,11 +667,11 @@ def check_projector(case, rec):
 
 
 SUBS = [
-    Sub("measure_motion", check_measure_motion, gen=measure_cases, quick=250, thorough=1500, shards=6),
+    Sub("measure_motion", check_measure_motion, gen=measure_cases, quick=180, thorough=1500, shards=6),
     Sub("normals_2d", check_normals_2d, gen=lambda: normals2d_cases(False), quick=200, thorough=1500, shards=4),
     Sub("normals_embedded", check_normals_2d, gen=lambda: normals2d_cases(True), quick=100, thorough=800, shards=4),
-    Sub("normals_3d", check_normals_3d, gen=normals3d_cases, quick=150, thorough=600, shards=6),
-    Sub("point_location_2d", check_point_location, gen=lambda: location_cases(2), quick=250, thorough=1000, shards=8),
-    Sub("point_location_3d", check_point_location, gen=lambda: location_cases(3), quick=150, thorough=600, shards=8),
-    Sub("projector", check_projector, gen=projector_cases, quick=200, thorough=600, shards=4),
+    Sub("normals_3d", check_normals_3d, gen=normals3d_cases, quick=120, thorough=600, shards=6),
+    Sub("point_location_2d", check_point_location, gen=lambda: location_cases(2), quick=200, thorough=1000, shards=8),
+    Sub("point_location_3d", check_point_location, gen=lambda: location_cases(3), quick=120, thorough=600, shards=8),
+    Sub("projector", check_projector, gen=projector_cases, quick=150, thorough=600, shards=4),
 ]
